@@ -627,7 +627,8 @@ def check_u12(ctx) -> None:
             if isinstance(st.targets[0].value, ast.Subscript) and norm(st.targets[0].value.value).endswith('OutputParameterDict'):
                 from gxstat.inline import inline_sequential
                 ix = norm(inline_sequential(st.targets[0].value.slice, st, cross_loops=True))
-                if ".replace('Units:', '')" in ix:
+                if ".replace('Units:', '')" in ix or (f.name == 'read_parameters' and not isinstance(st.targets[0].value.slice, ast.Constant)):
+                    # in a read_parameters the only non-literal key into the output dictionary is the name a `Units:` request carries
                     okey = f"{norm(st.targets[0].value.value)}[<name after 'Units:'>]"
             key = f'{f.qualname}/{_obj_key(okey)}/relabel-paired-with-value-change'
             where = f'{f.module.rel}:{st.lineno}'
